@@ -852,6 +852,8 @@ class PDFDocument:
             if settings.STRICT:
                 raise PDFSyntaxError("N is not defined: %r" % stream)
             n = 0
+        if not isinstance(n, int) or n < 0:
+            raise PDFSyntaxError("N is not a count: %r" % n)
         parser = PDFStreamParser(stream.get_data())
         parser.set_document(self)
         objs: List[object] = []
